@@ -560,6 +560,11 @@ def r10_input_once(prog, rep: Report, pf: PoolFacts):
                 d = dotted(n.targets[0])
                 if d and len(d) == 2:
                     data_field = d[1]
+    if init is not None and len(init.params) >= 3:
+        rep.fn(init)
+        probs = param_used_only_for_iteration(init, init.params[2], set())
+        rep.check("C01.R10", init, "input", not probs, f"`{init.params[2]}` is only stored for the feeder", "; ".join(probs),
+                  scenario="a generator or an empty iterable as input: len()/indexing fails, a second traversal sees nothing")
     run_ = pf.feeder_run
     rep.fn(run_)
     if data_field is None:
